@@ -98,7 +98,9 @@ def _normalize_response(
                 f"with incorrect keys. Expected: {sorted(expected_keys)}, "
                 f"Got: {sorted(actual_keys)}. " + (f"Missing: {sorted(missing)}. " if missing else "") + (f"Extra: {sorted(extra)}." if extra else "")
             )
-        return response
+        # A copy: the dict belongs to the handler (it may hand out the same
+        # object on every call) and emit sentinels are added to the result.
+        return dict(response)
     # Single value (or single value for multi-output): assign to first output
     return {data_outputs[0]: response}
 
